@@ -10,7 +10,7 @@
      LTIMeasurementModel ctor            (LTIMeasurementModel.cpp:16-32)
      LinearModel ctor, getNoiseSample    (LinearModel.cpp:21-60)
      SimulatedStateModel ctor, bufferData, getData, setProperty
-                                         (SimulatedStateModel.cpp:16-70)
+                                         (SimulatedStateModel.cpp:16-75)
      SimulatedLinearSensor::freeze, measure (SimulatedLinearSensor.cpp:77-103)
      InitSurveillanceAreaGrid::initialize   (InitSurveillanceAreaGrid.cpp:44-63)
    Polymorphic in the arithmetic (MatOps).  The standard-normal draws of the
@@ -33,6 +33,9 @@ Definition dim_n (d : Dim) : nat := match d with OneD => 2 | TwoD => 4 | ThreeD 
 Inductive lti_err := ErrFEmpty | ErrQEmpty | ErrFNotSquare | ErrQNotSquare | ErrFQMismatch.
 Inductive meas_err := ErrHEmpty | ErrREmpty | ErrRNotSquare | ErrHRMismatch
                       | ErrIndex (pos value : nat).       (* LinearModel only *)
+
+(* SimulatedStateModel's constructor: simulation_time = 0 throws *)
+Inductive sim_err := ErrSimEmpty.
 
 (* calls on a SimulatedStateModel / a SimulatedLinearSensor *)
 Inductive sim_op := SimBuffer | SimReset | SimOther.      (* bufferData(), setProperty("reset"), setProperty(<other>) *)
@@ -181,12 +184,12 @@ Record sim_state := mkSim {
   sim_data : option (M O d 1)       (* data_simulated_state_model_ (None: empty Data) *)
 }.
 
-(* the constructor; simulation_time = 0 writes column 0 of a matrix without
-   columns (an Eigen assertion / undefined behaviour): no model state *)
-Definition sim_ctor (x0 : M O d 1) (simulation_time : nat) (zs : list t) : option sim_state :=
+(* the constructor: throws when simulation_time = 0 (before allocating target_), otherwise
+   column 0 is the initial state and column k is motion(column k-1) *)
+Definition sim_ctor (x0 : M O d 1) (simulation_time : nat) (zs : list t) : sim_err + sim_state :=
   match simulation_time with
-  | 0 => None
-  | Datatypes.S k => Some (mkSim (x0 :: sim_columns k x0 zs) simulation_time 0 None)
+  | 0 => inl ErrSimEmpty
+  | Datatypes.S k => inr (mkSim (x0 :: sim_columns k x0 zs) simulation_time 0 None)
   end.
 
 (* bufferData / setProperty; the boolean is the call's return value.  A column
